@@ -210,12 +210,12 @@ template<typename L>
 static void spin_dfs(const char *tag, int nthreads, int pairs, int bound, uint64_t max_runs) {
 	std::string mode = std::string("dfs:") + LockName<L>::name + ":" + tag;
 	static unsigned dfs_mode_index = 0;
-	if(!want_mode(mode.c_str()) || (dfs_mode_index++ % opt.nshards) != opt.shard) return;
+	if(!want_mode(mode.c_str()) || (opt.mode.empty() && (dfs_mode_index++ % opt.nshards) != opt.shard)) return;
 	sched::Dfs dfs(bound);
 	long long i = 0;
 	bool complete = false;
 	do {
-		if(want_case(i)) run_spin_scenario<L>(mode.c_str(), i, nthreads, pairs, dfs, 5000, true);
+		run_spin_scenario<L>(mode.c_str(), i, nthreads, pairs, dfs, 5000, true);
 		i++;
 		if(!rec.violations.empty()) break;
 		if(!dfs.advance()) { complete = true; break; }
